@@ -303,9 +303,9 @@ fn main() {
             _ => {
                 let mut idx = k;
                 while idx < n_runs {
-                    // one run in eight executes on a thread of its own: per-thread
+                    // one run in 32 executes on a thread of its own: per-thread
                     // library state is then in its first-use condition
-                    let outcome = if idx % 8 == 5 {
+                    let outcome = if idx % 32 == 5 {
                         std::thread::scope(|s| s.spawn(|| simulate_run(seed, idx, &mut acc, crosscheck)).join().expect("harness thread"))
                     } else {
                         simulate_run(seed, idx, &mut acc, crosscheck)
